@@ -107,6 +107,7 @@ class Rig:
         self.frames: dict[str, int] = {}  # frame text -> (first) caller number
         self.owner: dict[int, int] = {}  # id(Command) -> caller number (identical frames stay distinct)
         self.active: int = -1  # caller whose command was dequeued last
+        self.in_probe = False  # the aftermath probe is exempt from scripted faults
         self.attempts: dict[Any, int] = {}
         self._frame_of: dict[int, str] = {}
         self.n_writes = 0
@@ -205,10 +206,10 @@ class Rig:
         self.log("write", frame=frame, caller=who, attempt=k + 1, m=self.ctx._multiplier, inst=getattr(self, "inst", 0))
         if transport._closing or not self.connected:
             raise exc.TransportError("Transport is closing or has closed")
-        if self.n_writes in self.ep.get("fail_writes", []):
+        if self.n_writes in self.ep.get("fail_writes", []) and not self.in_probe:
             raise exc.TransportError("injected write failure")
         for ev in self.ep.get("events", []):
-            if ev.get("after_write") == self.n_writes:
+            if ev.get("after_write") == self.n_writes and not self.in_probe:
                 self._at(ev.get("delay", 0.0), self._do_event, ev)
         echo = frame.replace(HGI, GWY_ID) if frame[7:16] == HGI else frame
         if who < 0:  # impersonation notice (or probe): scripted separately
@@ -337,6 +338,7 @@ async def _episode(loop: vloop.VirtualLoop, ep: dict[str, Any]) -> dict[str, Any
             await vloop.drain(loop)
         if rig.protocol._pause_writing:
             rig.protocol.resume_writing()
+        rig.in_probe = True
         pc = {"kind": "RQ30C9", "idx": 0x0B, "dev": "01:199999", "timeout": 10, "script": [{}]}
         pt = loop.create_task(rig.caller(len(ep["callers"]), pc), name=f"caller-{len(ep['callers'])}")
         ep_callers = ep["callers"]
@@ -716,7 +718,8 @@ def gen_faulty(rng) -> dict[str, Any]:
     else:  # arbitrary packets received in every state, long after the fact
         c = ep["callers"][0]
         fr = caller_frames(c)
-        ep["events"] = [{"at": rng.choice((0.001, 0.3, 2.0, 9.0, 25.0)), "do": "deliver", "frame": f} for f in (fr["echo"], fr["reply"] or fr["echo"], *near_miss_frames(c)[:2])]
+        used_idx = {x["idx"] for x in ep["callers"]}
+        ep["events"] = [{"at": rng.choice((0.001, 0.3, 2.0, 9.0, 25.0)), "do": "deliver", "frame": f} for f in (fr["echo"], fr["reply"] or fr["echo"], *near_miss_frames(c, used_idx)[:2])]
     return ep
 
 
